@@ -130,10 +130,23 @@ def frozen(module, attr, argnames):
                 return None
         return None
 
+    last_out = []          # the arrays the previous call returned (kept alive here, at most one call's worth)
+
+    def _arrays(o, depth=0):
+        if isinstance(o, np.ndarray):
+            return [o] if o.size <= 100000 else []
+        if isinstance(o, (tuple, list)) and depth < 2 and len(o) <= 8:
+            out = []
+            for v in o:
+                out += _arrays(v, depth + 1)
+            return out
+        return []
+
     @functools.wraps(orig)
     def guard(*a, **kw):
         c = CURRENT['ctx']
         snaps = {}
+        prev = [(arr, np.array(arr, copy=True)) for arr in last_out] if c is not None else []
         if c is not None:
             try:
                 bound = sig.bind(*a, **kw)
@@ -145,6 +158,19 @@ def frozen(module, attr, argnames):
             except TypeError:
                 snaps = {}
         out = cur(*a, **kw)
+        if c is not None:
+            # what an earlier call returned is the caller's: this call must not have written into it (a result that is
+            # a view of a buffer the function keeps).  Compared against a snapshot taken at entry of *this* call, so
+            # whatever the caller itself did to those arrays in between does not count.
+            if prev:
+                try:
+                    same_prev = all(np.array_equal(arr, before, equal_nan=True) for arr, before in prev)
+                except TypeError:
+                    same_prev = all(np.array_equal(arr, before) for arr, before in prev)
+                c.counters['stable-output:%s' % label] += 1
+                c.require('%s:earlier-result-unchanged-by-this-call' % attr, bool(same_prev), {'arrays': len(prev)},
+                          {'fn': attr, 'clause': 'returned-arrays-stay-the-callers'})
+            last_out[:] = _arrays(out)
         if c is not None and snaps:
             for nm, (obj, (kind, before, shape)) in snaps.items():
                 try:
